@@ -77,12 +77,12 @@ CallV(c, r, k, tg, vprop, keep) ==
                  @@ (IF HasVarRsp(c) THEN [outcome |-> "agrees", vprop |-> vprop, value |-> VarRsp(c, k).value]
                      ELSE IF c.rspN = "" THEN [outcome |-> "noerror"]
                      ELSE [outcome |-> "agrees", vprop |-> vprop, value |-> Expected(c.rspN, Tables[c.rspN], RspRec(c, k))])]
-MsgBytes(c, k) == MsgRspBytes(129, c.netfn + 1, 0, 1, Lun(c, k), c.num, 0, c.group \o RspBytes(c, k))
+MsgT(echo, c, k) == MsgRspE(echo, c.netfn + 1, Lun(c, k), c.num, 0, c.group \o RspBytes(c, k))
 \* every other reply carries an RMCP sequence number of the BMC's own (2Ah, 00h, FEh ...) instead of FFh: whatever the
 \* library makes of it, its next request must again start 06 00 FF 07 (the RMCP header is outside the AuthCode)
 Stamp(t, j) == IF j % 2 = 0 THEN SetByte(t, 2, (j * 21) % 255) ELSE t
-ReactIn(c, k, j) == [React0 EXCEPT !.datagrams = << Dg(Stamp(SessPacket(S, LE32s(j), B(MsgBytes(c, k)), [i \in 1..16 |-> (i + j) % 256]), j), [kind |-> "rsp", valid |-> TRUE, code |-> 0]) >>]
-ReactOut(c, k, j) == [React0 EXCEPT !.datagrams = << Dg(Stamp(NullWrapper(0, B(MsgBytes(c, k))), j), [kind |-> "rsp", valid |-> TRUE, code |-> 0]) >>]
+ReactIn(c, k, j) == [React0 EXCEPT !.datagrams = << Dg(Stamp(SessPacket(S, LE32s(j), MsgT(EchoS, c, k), [i \in 1..16 |-> (i + j) % 256]), j), [kind |-> "rsp", valid |-> TRUE, code |-> 0]) >>]
+ReactOut(c, k, j) == [React0 EXCEPT !.datagrams = << Dg(Stamp(NullWrapper(0, MsgT(EchoN, c, k)), j), [kind |-> "rsp", valid |-> TRUE, code |-> 0]) >>]
 
 Rev(q) == [i \in 1..Len(q) |-> q[Len(q) + 1 - i]]
 \* --- the convenience methods (bmc.SessionCommands / SessionlessCommands, pkg/dcmi commanders): same wire behaviour,
@@ -119,7 +119,7 @@ MethodV(c, r, k, tg, vprop) ==
   [k |-> "call", api |-> "Method", method |-> mt.m, on |-> mt.on, margs |-> mt.margs, label |-> mt.m, target |-> tg,
    exp |-> [prop |-> "C06", vprop |-> vprop, rslun |-> lun,
             reqs |-> << [pt |-> 0, netfn |-> c.netfn, cmd |-> c.num, data |-> c.group \o ReqBytes(c, r)] >>] @@ MethValue(c, k)]
-MethMsgBytes(c, k) == MsgRspBytes(129, c.netfn + 1, 0, 1, IF c.name = "GetSensorReading" THEN 0 ELSE Lun(c, k), c.num, 0, c.group \o RspBytes(c, k))
+MethMsgT(echo, c, k) == MsgRspE(echo, c.netfn + 1, IF c.name = "GetSensorReading" THEN 0 ELSE Lun(c, k), c.num, 0, c.group \o RspBytes(c, k))
 RECURSIVE MethodSteps(_, _, _, _, _)
 MethodSteps(cs, k, tg, j, vprop) ==
   IF cs = <<>> THEN <<>> ELSE
@@ -129,15 +129,15 @@ MethodSteps(cs, k, tg, j, vprop) ==
       usable == rs # {} /\ Meth(c, r) # <<>> /\ (tg = "sess" \/ ~Meth(c, r).sess)
   IN (IF ~usable THEN <<>> ELSE
       << MethodV(c, r, k + j, tg, vprop),
-         IF tg = "sess" THEN [React0 EXCEPT !.datagrams = << Dg(SessPacket(S, LE32s(j), B(MethMsgBytes(c, k + j)), [i \in 1..16 |-> (i + j) % 256]), [kind |-> "rsp", valid |-> TRUE, code |-> 0]) >>]
-         ELSE [React0 EXCEPT !.datagrams = << Dg(NullWrapper(0, B(MethMsgBytes(c, k + j))), [kind |-> "rsp", valid |-> TRUE, code |-> 0]) >>] >>)
+         IF tg = "sess" THEN [React0 EXCEPT !.datagrams = << Dg(SessPacket(S, LE32s(j), MethMsgT(EchoS, c, k + j), [i \in 1..16 |-> (i + j) % 256]), [kind |-> "rsp", valid |-> TRUE, code |-> 0]) >>]
+         ELSE [React0 EXCEPT !.datagrams = << Dg(NullWrapper(0, MethMsgT(EchoN, c, k + j)), [kind |-> "rsp", valid |-> TRUE, code |-> 0]) >>] >>)
      \o MethodSteps(Tail(cs), k, tg, IF usable THEN j + 1 ELSE j, vprop)
 \* the current privilege level is read with level 0 in the request (22.18)
 GetPriv(tg, j, lvl) ==
   << [k |-> "call", api |-> "Method", method |-> "GetSessionPrivilegeLevel", on |-> "", margs |-> <<>>, label |-> "GetSessionPrivilegeLevel", target |-> tg,
       exp |-> [prop |-> "C06", vprop |-> "C07", rslun |-> 0, outcome |-> "equals", value |-> lvl,
                reqs |-> << [pt |-> 0, netfn |-> 6, cmd |-> 59, data |-> <<0>>] >>]],
-     [React0 EXCEPT !.datagrams = << Dg(SessPacket(S, LE32s(j), B(MsgRspBytes(129, 7, 0, 1, 0, 59, 0, <<lvl>>)), [i \in 1..16 |-> (i + j) % 256]), [kind |-> "rsp", valid |-> TRUE, code |-> 0]) >>] >>
+     [React0 EXCEPT !.datagrams = << Dg(SessPacket(S, LE32s(j), MsgRspE(EchoS, 7, 0, 59, 0, <<lvl>>), [i \in 1..16 |-> (i + j) % 256]), [kind |-> "rsp", valid |-> TRUE, code |-> 0]) >>] >>
 Methods(id, k, tg, rev) ==
   LET cs == IF rev THEN Rev(Cmds(k)) ELSE Cmds(k)
       main == MethodSteps(cs, k, tg, 1, IF rev THEN "C17" ELSE "C07") IN
